@@ -21,6 +21,8 @@ func init() {
 }
 
 func runC13(c *eng.Ctx) {
+	c.Rule("R13.2", "K5")
+	ruleGroupMemberSubscribesAsGroupMember(c)
 	c.Rule("R13.9", "K2")
 	ruleRegisteredMemberIsThisCall(c)
 	c.Rule("R13.10", "K2")
